@@ -187,8 +187,11 @@ def create_flow_instance(
             flow_state.arguments[param.name] = val
             flow_state.arguments[positional_param] = val
 
-    # Add all flow return members
+    # Add all flow return members (a return member named like a parameter is that parameter)
+    parameter_names = [param.name for param in flow_config.parameters]
     for idx, member in enumerate(flow_config.return_members):
+        if member.name in parameter_names:
+            continue
         flow_state.context.update(
             {
                 member.name: (
